@@ -65,8 +65,15 @@ def dom_desc(dom):
     return [space_desc(sp) for sp in dom]
 
 
+class NonFinite(Exception):
+    """The implementation returned inf/nan: no exact rational image -> the comparison is `false`."""
+
+
 def cqs(xs):
-    return C.clist([C.cq(float(x)) for x in xs])
+    xs = [float(x) for x in xs]
+    if not all(np.isfinite(x) for x in xs):
+        raise NonFinite()
+    return C.clist([C.cq(x) for x in xs])
 
 
 def cnats(xs):
@@ -109,8 +116,19 @@ def power_space_for(case, hsp):
     return ift.PowerSpace(hsp, None if bb is None else tuple(bb))
 
 
+def history_steps(case):
+    """The single power_analyze calls of a history case (same domain, same analysed spaces)."""
+    return [dict(step, kind="analyze", dom=case["dom"], spaces=case["spaces"]) for step in case["steps"]]
+
+
 def run_case(case):
     """Returns the observation dict (JSON-able)."""
+    if case["kind"] == "ahist":      # several calls in ONE process on the SAME DomainTuple object
+        return {"error": None, "steps": [run_case(sub) for sub in history_steps(case)]}
+    return run_case_(case)
+
+
+def run_case_(case):
     import logging
     import nifty.cl as ift
     ift.logger.setLevel(logging.ERROR)      # "neither harmonic nor a PowerSpace" warnings for passive sub-domains
@@ -191,7 +209,41 @@ def run_case(case):
 # ---------------------------------------------------------------------------------------------------
 
 def coq_check(case, obs):
+    try:
+        return coq_check_(case, obs)
+    except NonFinite:
+        return "false"
+
+
+def analyze_terms(case, obs):
+    """(call, observation) Coq terms of one power_analyze call, or None if there is no image."""
+    if "dom" not in obs or "specs" not in obs:
+        return None
+    d = coq_dom(obs["dom"])
+    specs = C.clist(["(%d%%nat, (%s, %d%%nat))" % (i, cnats(p), nb) for i, p, nb in obs["specs"]])
+    f = ("fre %s" % cqs(case["re"])) if case.get("im") is None else ("fcx %s %s" % (cqs(case["re"]), cqs(case["im"])))
+    if obs["error"] is not None:
+        if obs["error"] != "ValueError":
+            return None
+        o = "None"
+    else:
+        v = obs["out"]
+        fv = ("fre %s" % cqs(v["re"])) if v["im"] is None else ("fcx %s %s" % (cqs(v["re"]), cqs(v["im"])))
+        o = "(Some (%s, %s))" % (coq_dom(obs["rdom"]), fv)
+    return "(acall_of %s %s %s (%s))" % (d, specs, C.cbool(case["keep"]), f), o
+
+
+def coq_check_(case, obs):
     kind = case["kind"]
+    if kind == "ahist":
+        calls, outs = [], []
+        for sub, so in zip(history_steps(case), obs["steps"]):
+            t = analyze_terms(sub, so)
+            if t is None:
+                return "false"
+            calls.append(t[0])
+            outs.append(t[1])
+        return "history_ok %s %s" % (C.clist(calls), C.clist(outs))
     if kind == "analyze":
         if "dom" not in obs or "specs" not in obs:
             return "false"
@@ -261,6 +313,8 @@ def closeto(a, b):
 
 
 def signature(case, obs=None):
+    if case["kind"] == "ahist":
+        return {"fn": "power_analyze", "history": True, "dtype": "mixed"}
     sig = {"fn": {"times": "PowerDistributor.times", "adjoint": "PowerDistributor.adjoint_times",
                   "dof_times": "DOFDistributor.times", "dof_adjoint": "DOFDistributor.adjoint_times",
                   "powop": "create_power_operator", "analyze": "power_analyze"}[case["kind"]],
@@ -275,7 +329,23 @@ def signature(case, obs=None):
 
 
 def direct_failure(case, obs):
-    """None if the property holds for this case on the implementation, else a description."""
+    """None if the property holds for this case on the implementation, else a description.
+    Exceptions of the code under test and non-finite results are failures, never crashes."""
+    try:
+        if case["kind"] == "ahist":
+            for i, (sub, so) in enumerate(zip(history_steps(case), obs["steps"])):
+                f = direct_failure_(sub, so)
+                if f:
+                    return "call %d of a sequence of power_analyze calls on one domain: %s" % (i, f)
+            return None
+        return direct_failure_(case, obs)
+    except C.MachineryError:
+        raise
+    except Exception as e:  # noqa: BLE001
+        return "%s: %s (%s)" % (case["kind"], type(e).__name__, str(e)[:120])
+
+
+def direct_failure_(case, obs):
     kind = case["kind"]
     cplx = case.get("im") is not None
     x = np.array(case["re"], dtype=np.float64) + (1j * np.array(case["im"], dtype=np.float64) if cplx else 0.0)
@@ -298,6 +368,8 @@ def direct_failure(case, obs):
                 sh[i] = nb
             return part.ravel()
         out = obs["out"]
+        if not all(np.isfinite(v) for v in out["re"] + (out["im"] or [])):
+            return "power_analyze returned non-finite values"
         if case["keep"]:
             if out["im"] is None:
                 return "keep_phase_information=True returned a real field"
@@ -547,16 +619,63 @@ def gen_case(rng, kind):
     raise ValueError(kind)
 
 
+def gen_history(rng):
+    """A sequence of power_analyze calls on ONE domain and analysed sub-domain with changing binnings
+    (natural, custom, deliberately empty bins -- also twice in a row: failing call, then retry),
+    changing fields, dtypes and phase flags."""
+    while True:
+        base = gen_case(rng, "analyze")
+        sp = base["spaces"]
+        one = sp is None and len(base["dom"]) == 1 or np.isscalar(sp) or (isinstance(sp, list) and len(sp) == 1)
+        if one:
+            break
+    idx = 0 if sp is None else (sp if np.isscalar(sp) else sp[0])
+    hspec = base["dom"][idx]
+    uk = np.asarray(mk_space(hspec).get_unique_k_lengths(), dtype=np.float64)
+    n = size_of(base["dom"])
+    top = float(uk[-1])
+
+    def binning():
+        r = int(rng.integers(0, 10))
+        if r < 3:
+            return None
+        if r < 6:
+            return gen_binbounds(rng, hspec)
+        if r < 8 or len(uk) < 2:
+            return [top + 1.0, top + 2.0]                       # last bins empty
+        b = int(rng.integers(0, len(uk) - 1))                    # two bounds between adjacent lengths: empty middle bin
+        lo, hi = float(uk[b]), float(uk[b + 1])
+        return [lo + (hi - lo) / 3.0, lo + 2.0 * (hi - lo) / 3.0]
+    steps, prev = [], "x"
+    for t in range(int(rng.integers(3, 7))):
+        bb = binning()
+        if t > 0 and rng.integers(0, 4) == 0:
+            bb = prev                                            # the same binning again (retry after a failure)
+        prev = bb
+        cplx = bool(rng.integers(0, 2))
+        steps.append({"binbounds": bb, "keep": bool(cplx and rng.integers(0, 3) == 0), "re": ints(rng, n),
+                      "im": ints(rng, n) if cplx else None})
+    if all(s["binbounds"] == steps[0]["binbounds"] for s in steps):
+        steps[-1]["binbounds"] = None if steps[0]["binbounds"] is not None else [top + 1.0, top + 2.0]
+        steps.append(dict(steps[-1]))
+    return {"kind": "ahist", "dom": base["dom"], "spaces": sp, "steps": steps}
+
+
 KINDS = ["times", "adjoint", "powop", "dof_times", "dof_adjoint", "analyze", "analyze", "exact"]
 
 
 def gen_cases(ctx, n, salt=10):
     rng = ctx.rng(salt)
-    return [gen_case(rng, KINDS[i % len(KINDS)]) for i in range(n)]
+    out = [gen_case(rng, KINDS[i % len(KINDS)]) for i in range(n)]
+    rng2 = ctx.rng(salt + 1000)
+    return out + [gen_history(rng2) for _ in range(max(6, n // 12))]
 
 
 def nontrivial_key(case, obs):
     """Hashable identity of a non-trivial case (>= 2 bins, some bin with >= 2 modes), else None."""
+    if case["kind"] == "ahist":
+        bbs = {json.dumps(st["binbounds"]) for st in case["steps"]}
+        return json.dumps(["ahist", case["dom"], case["spaces"], sorted(bbs)]) if len(bbs) >= 2 else None
     if case["kind"] == "analyze":
         sp = obs.get("specs") or []
         ok = any(nb >= 2 and len(p) > nb for _, p, nb in sp)
@@ -605,11 +724,11 @@ class C10(C.Check):
                         pass
         for i in bad[:4]:
             res.add_broken("correspondence", "%s vs coq/C10/Model.v" % signature(self.cases[i])["fn"],
-                           {"case": self.cases[i], "observed": {k: v for k, v in self.obs[i].items() if k in ("error", "message", "out", "specs", "pindex", "nbin")}})
+                           {"case": self.cases[i], "observed": {k: v for k, v in self.obs[i].items() if k in ("error", "message", "out", "specs", "pindex", "nbin", "steps")}})
         keys = {nontrivial_key(c, o) for c, o in zip(self.cases, self.obs)} - {None}
         dist = {}
         for c, o in zip(self.cases, self.obs):
-            k = signature(c)["fn"] + ("/complex" if c.get("im") is not None else "/real")
+            k = signature(c)["fn"] + ("/history" if c["kind"] == "ahist" else "/complex" if c.get("im") is not None else "/real")
             dist[k] = dist.get(k, 0) + 1
         binning = {"natural": 0, "custom": 0}
         ndom = {}
@@ -618,10 +737,10 @@ class C10(C.Check):
             if "binbounds" in c:
                 binning["natural" if c["binbounds"] is None else "custom"] += 1
             ndom[len(c["dom"])] = ndom.get(len(c["dom"]), 0) + 1
-            errs += o["error"] is not None
+            errs += (o["error"] is not None) + sum(1 for so in o.get("steps", []) if so["error"] is not None)
         res.coverage.update({
             "evaluations": len(self.cases), "distinct_nontrivial": len(keys),
-            "rule": "generated product domains (1-3 sub-domains; analysed: harmonic RGSpace 1-D sizes 1-9 / 2-D up to 5x5 with dyadic distances, LMSpace lmax<=3; passive: RG, GL, PowerSpace, DOFSpace, LM, Unstructured), natural / midpoint-subset / linear / logarithmic / deliberately empty binnings, arbitrary dofdex for DOFDistributor, integer-valued real and complex fields; non-trivial = at least 2 bins and a bin with at least 2 modes; distinct by (kind, domain, space, binning, dofdex, phase flag, dtype)",
+            "rule": "generated product domains (1-3 sub-domains; analysed: harmonic RGSpace 1-D sizes 1-9 / 2-D up to 5x5 with dyadic distances, LMSpace lmax<=3; passive: RG, GL, PowerSpace, DOFSpace, LM, Unstructured), natural / midpoint-subset / linear / logarithmic / deliberately empty binnings, arbitrary dofdex for DOFDistributor, integer-valued real and complex fields; histories of 3-7 power_analyze calls on ONE domain with changing binnings (natural / custom / empty bins, failing call then retry with the same binning), fields, dtypes and phase flags, every call compared with the pure model of its own arguments; non-trivial = at least 2 bins and a bin with at least 2 modes; distinct by (kind, domain, space, binning, dofdex, phase flag, dtype)",
             "samples": [{"case": {k: v for k, v in c.items() if k not in ("re", "im", "exact_p")}, "nbin": o.get("nbin"), "error": o["error"]}
                         for c, o in list(zip(self.cases, self.obs))[3:6]],
             "input_distribution": {"by_function": dist, "binning": binning, "n_subdomains": ndom, "cases_raising": errs},
